@@ -2,6 +2,7 @@ import PromModel.Tsdb.HistLayout
 import PromModel.Tsdb.Merge
 import PromProofs.HistLayout
 import PromModel.Suites.HintSuite
+import PromProofs.HistHint
 /-
   C12 — Counter-reset hints returned by queries are sound (layout level).
   Model: C11's chunk appender (`Prom.Hist.appendHist`), `hintOf` (= `counterResetHint`), `Chunk.read`,
@@ -48,6 +49,43 @@ def hint_sound_chunk_full : Prop :=
   ∀ (samples : List (Int × Hist)) (c : Chunk),
     samples.foldlM (fun (st : Chunk) (p : Int × Hist) => (appendHist none st p.1 p.2).map (·.chunk)) (Chunk.empty false) = .ok c →
     hintsSound c.read = true
+
+/-- **hint_sound_chunk.**  Every chunk built by the transcribed appender from valid histograms of one flavour
+    (any mix of counter/gauge/explicit-reset hints, staleness markers, schema/threshold/bounds changes; all four
+    outcomes of `AppendHistogram`, forward and backward recoding included) hands out sound hints: a non-stale sample
+    read with NotCounterReset is preceded in the chunk by a non-stale sample with the same layout key and no
+    decrease in count, zero count or any bucket.  This is the statement of `hint_sound_chunk_full` for valid
+    integer histograms (the `_full` text quantifies over all `Hist` values, also ill-formed ones and float
+    histograms pushed into the integer appender, which the Go types exclude). -/
+theorem hint_sound_chunk (samples : List (Int × Hist)) (c : Chunk)
+    (hwf : ∀ p ∈ samples, WFs p.2 ∧ p.2.float = false)
+    (h : samples.foldlM (fun (st : Chunk) (p : Int × Hist) => (appendHist none st p.1 p.2).map (·.chunk))
+      (Chunk.empty false) = .ok c) : hintsSound c.read = true := by
+  obtain ⟨l, inv⟩ := runChunk_inv false samples (Chunk.empty false) [] (CInv.empty false) rfl hwf c h
+  simp [hintsSound, CInv.hints_sound c l inv none 0]
+
+/-- the same for float histogram chunks -/
+theorem hint_sound_chunk_float (samples : List (Int × Hist)) (c : Chunk)
+    (hwf : ∀ p ∈ samples, WFs p.2 ∧ p.2.float = true)
+    (h : samples.foldlM (fun (st : Chunk) (p : Int × Hist) => (appendHist none st p.1 p.2).map (·.chunk))
+      (Chunk.empty true) = .ok c) : hintsSound c.read = true := by
+  obtain ⟨l, inv⟩ := runChunk_inv true samples (Chunk.empty true) [] (CInv.empty true) rfl hwf c h
+  simp [hintsSound, CInv.hints_sound c l inv none 0]
+
+/-- **hint_sound_query (head series).**  `hint_sound_query_full` for valid histograms: whatever the head-level
+    cuts, flavour switches, recodings and counter resets, the concatenation of the chunk iterators of a series
+    (what a full-range query returns) carries sound hints: every chunk starts with Unknown/Gauge, inside a chunk
+    `hint_sound_chunk` applies.  (Trimmed query ranges are excluded: `hint_first_of_trimmed_query_witness`.) -/
+theorem hint_sound_query (samples : List (Int × Hist)) (cuts : List Bool) (s : Series)
+    (hwf : ∀ p ∈ samples, WFs p.2)
+    (h : (samples.zip cuts).foldlM (fun (st : Series) (p : (Int × Hist) × Bool) =>
+      (st.append p.2 p.1.1 p.1.2).map (·.1)) Series.empty = .ok s) :
+    hintsSound s.read = true := by
+  obtain ⟨gs, inv, _⟩ := runSeries_inv (samples.zip cuts) Series.empty [] trivial
+    (fun p hp => hwf p.1 (List.of_mem_zip hp).1) s h
+  have := SInv.hints_sound _ gs inv none 0
+  have e : s.read = List.flatMap Chunk.read (s.cur.toList ++ s.done).reverse := rfl
+  rw [hintsSound, e, this]; rfl
 
 /-- **hint_sound_merge (flag level).**  The chain iterator hands out NotCounterReset only if the
     underlying sample carried it *and* the `consecutive` flag is set … -/
